@@ -65,7 +65,16 @@ def obs_array(a):
     mask = np.ma.getmaskarray(a)
     kind = a.dtype.kind
     flat = [None if m else enc(v, kind) for v, m in zip(a.data.ravel().tolist(), mask.ravel().tolist())]
-    return {"dtype": a.dtype.str[1:] if kind in "iuf" else a.dtype.kind, "shape": list(a.shape), "flat": flat}
+    if kind in "SUO":
+        flat = []
+        for v, m in zip(a.data.ravel().tolist(), mask.ravel().tolist()):
+            if m:
+                flat.append(None)
+            else:
+                v = v.decode("utf8", "replace") if isinstance(v, bytes) else str(v)
+                flat.append(v.rstrip("\x00"))
+    return {"dtype": a.dtype.str[1:] if kind in "iuf" else ("str" if kind in "SUO" else a.dtype.kind),
+            "shape": list(a.shape), "flat": flat}
 
 
 def np_vals(vals, t):
@@ -163,9 +172,28 @@ def reference(fn, cases, rows):
     nc.close()
 
 
+def scribble(a):
+    """Overwrite a returned array in place (values and mask), so that any aliasing of the
+    implementation's internal state shows up on the later reads."""
+    try:
+        d = np.ma.getdata(a)
+        if d.dtype.kind in "iuf":
+            d[...] = 7
+        elif d.dtype.kind in "SU":
+            d[...] = "Q"
+        m = np.ma.getmask(a)
+        if m is not np.ma.nomask:
+            m[...] = ~m
+    except Exception:
+        pass
+
+
 def attempt(fun):
     try:
-        return obs_array(fun())
+        a = fun()
+        o = obs_array(a)
+        scribble(a)
+        return o
     except Exception as ex:
         return {"err": errclass(ex), "msg": (type(ex).__name__ + ": " + str(ex))[:160]}
 
@@ -252,6 +280,254 @@ def cfdm_reads(fn, cases, rows, configs):
                 out["unchanged"] = attempt(lambda: f.array) == out["whole"]
 
 
+# ---------------------------------------------------------------- families with several variables per case
+def written(var):
+    """(array of all values, number of leading rows that are written)"""
+    n = var["n"]
+    arr = np_vals(var["data"], var["dt"]).reshape(var["shape"])
+    return arr, n - var.get("nw", 0)
+
+
+def put_var(nc, name, var, dnames, extra=None):
+    kw = {}
+    if var.get("fill") is not None:
+        kw["fill_value"] = np_vals([var["fill"]], var["dt"])[0]
+    v = nc.createVariable(name, var["dt"], dnames, **kw)
+    v.set_auto_maskandscale(False)
+    for k, a in var["attrs"].items():
+        set_raw_attr(v, k, a)
+    for k, a in (extra or {}).items():
+        v.setncattr(k, a)
+    arr, nwritten = written(var)
+    if nwritten > 0:
+        v[0:nwritten] = arr[0:nwritten]          # the trailing rows are never written: the library pre-fills them
+    return v
+
+
+def write_pair(nc, c):
+    i = c["i"]
+    p, ch = c["parent"], c.get("child")
+    n = p["n"]
+    d = f"p{i}"
+    nc.createDimension(d, n)
+    carrier = nc.createVariable(f"c{i}", "f8", (d,))
+    carrier.setncattr("long_name", f"c{i}")
+    carrier[...] = np.arange(n, dtype="f8")
+    ck = c["ckind"]
+    if ck == "dim":
+        pname = d
+        put_var(nc, pname, p, (d,), {"long_name": f"dim{i}"} | ({"bounds": f"{d}_bnds"} if ch else {}))
+        if ch:
+            put_var(nc, f"{d}_bnds", ch, (d, "bnd"))
+    elif ck == "aux":
+        pname = f"a{i}"
+        put_var(nc, pname, p, (d,), {"long_name": pname} | ({"bounds": f"{pname}_bnds"} if ch else {}))
+        if ch:
+            put_var(nc, f"{pname}_bnds", ch, (d, "bnd"))
+        carrier.setncattr("coordinates", pname)
+    elif ck == "domanc":
+        pname = f"da{i}"
+        z = nc.createVariable(d, "f8", (d,))
+        z.setncattr("standard_name", "atmosphere_hybrid_sigma_pressure_coordinate")
+        z.setncattr("formula_terms", f"a: {pname}")
+        z[...] = np.arange(n, dtype="f8")
+        if ch:
+            z.setncattr("bounds", f"{d}_bnds")
+            zb = nc.createVariable(f"{d}_bnds", "f8", (d, "bnd"))
+            zb.setncattr("formula_terms", f"a: {pname}_bnds")
+            zb[...] = np.stack([np.arange(n), np.arange(n) + 1], axis=-1).astype("f8")
+        put_var(nc, pname, p, (d,), {"long_name": pname})
+        if ch:
+            put_var(nc, f"{pname}_bnds", ch, (d, "bnd"))
+    elif ck == "cellm":
+        pname = f"m{i}"
+        put_var(nc, pname, p, (d,), {"units": "m2"})
+        carrier.setncattr("cell_measures", f"area: {pname}")
+    else:
+        pname = f"fa{i}"
+        put_var(nc, pname, p, (d,), {"long_name": pname})
+        carrier.setncattr("ancillary_variables", pname)
+
+
+GEOM = {"node_count": [10, 3], "part_node_count": [3, 4, 3, 3], "interior_ring": [0, 1, 0, 0],
+        "x": [20, 10, 0, 5, 10, 15, 10, 20, 10, 0, 50, 40, 30], "y": [0, 15, 0, 5, 10, 5, 5, 20, 35, 20, 0, 15, 0]}
+
+
+def write_geom(nc, c):
+    """The polygon geometry of cfdm.example_field(6) with chosen data types and pre-filled elements."""
+    i = c["i"]
+    inst, node, part = f"inst{i}", f"node{i}", f"part{i}"
+    nc.createDimension(inst, 2)
+    nc.createDimension(node, 13)
+    nc.createDimension(part, 4)
+    g = nc.createVariable(f"geom{i}", "i4", ())
+    g.setncatts({"geometry_type": "polygon", "node_coordinates": f"x{i} y{i}", "coordinates": f"lon{i} lat{i}",
+                 "node_count": f"nc{i}", "part_node_count": f"pnc{i}", "interior_ring": f"ir{i}"})
+    for nm, vals in (("nc", GEOM["node_count"]), ("pnc", GEOM["part_node_count"])):
+        v = nc.createVariable(f"{nm}{i}", "i4", (inst if nm == "nc" else part,))
+        v[...] = vals
+    for nm, key, dim in (("ir", "ir", part), ("x", "x", node), ("y", "y", node), ("lon", "lon", inst), ("lat", "lat", inst)):
+        var = c[key]
+        extra = {}
+        if nm in ("x", "y"):
+            extra = {"axis": nm.upper(), "long_name": f"{nm}{i}"}
+        if nm in ("lon", "lat"):
+            extra = {"long_name": f"{nm}{i}", "nodes": f"{'x' if nm == 'lon' else 'y'}{i}"}
+        put_var(nc, f"{nm}{i}", var, (dim,), extra)
+    f = nc.createVariable(f"c{i}", "f8", (inst,))
+    f.setncatts({"long_name": f"c{i}", "coordinates": f"lon{i} lat{i}", "geometry": f"geom{i}"})
+    f[...] = [1.0, 2.0]
+
+
+def write_dsg(nc, c):
+    """A contiguous ragged array: count variable, data and a coordinate on the sample dimension."""
+    i = c["i"]
+    st, ob = f"st{i}", f"ob{i}"
+    nc.createDimension(st, 2)
+    nc.createDimension(ob, 5)
+    rs = nc.createVariable(f"rs{i}", c["count_dt"], (st,))
+    rs.setncatts({"sample_dimension": ob, "long_name": f"rs{i}"})
+    rs[...] = [3, 2]
+    put_var(nc, f"c{i}", c["data_var"], (ob,), {"long_name": f"c{i}", "coordinates": f"t{i} la{i}"})
+    put_var(nc, f"t{i}", c["time"], (ob,), {"long_name": f"t{i}"})
+    put_var(nc, f"la{i}", c["lat"], (st,), {"long_name": f"la{i}"})
+
+
+def write_string(nc, c):
+    i = c["i"]
+    n = len(c["data"])
+    d = f"s{i}"
+    nc.createDimension(d, n)
+    kw = {}
+    if c["dt"] == "S1":
+        L = c["strlen"]
+        nc.createDimension(f"l{i}", L)
+        if c.get("fill") is not None:
+            kw["fill_value"] = c["fill"].encode()
+        v = nc.createVariable(f"c{i}", "S1", (d, f"l{i}"), **kw)
+        v.set_auto_maskandscale(False)
+        v.set_auto_chartostring(False)
+        for k, x in enumerate(c["data"]):
+            if x is not None:
+                v[k] = np.array(list(x.ljust(L, "\x00")), dtype="S1")
+    else:
+        if c.get("fill") is not None:
+            kw["fill_value"] = c["fill"]
+        v = nc.createVariable(f"c{i}", str, (d,), **kw)
+        for k, x in enumerate(c["data"]):
+            if x is not None:
+                v[k] = x
+    v.setncattr("long_name", f"c{i}")
+    if c.get("missing_value") is not None:
+        v.setncattr("missing_value", c["missing_value"])
+
+
+WRITERS = {"pair": write_pair, "geom": write_geom, "dsg": write_dsg, "string": write_string}
+
+
+def all_arrays(f):
+    """Every array the field presents: its data, each metadata construct with data (by netCDF
+    variable name), their bounds and interior rings."""
+    out = {"<field>": attempt(lambda: f.array)}
+    for key, x in sorted(f.constructs.filter_by_data(todict=True).items()):
+        name = x.nc_get_variable(None) or key
+        if x.has_data():
+            out[name] = attempt(lambda: x.array)
+        if hasattr(x, "has_bounds") and x.has_bounds():
+            out[name + "|bounds"] = attempt(lambda: x.bounds.array)
+        if hasattr(x, "get_interior_ring") and x.get_interior_ring(None) is not None:
+            out[name + "|interior_ring"] = attempt(lambda: x.get_interior_ring().array)
+    return out
+
+
+def reference_multi(fn, cases, rows):
+    nc = netCDF4.Dataset(fn, "r")
+    for c in cases:
+        i = c["i"]
+        ref = {}
+        rows[i]["refs"] = ref
+        for name, v in nc.variables.items():
+            digits = "".join(ch for ch in name.split("_")[0] if ch.isdigit())
+            if digits != str(i):
+                continue
+            o = {}
+            ref[name] = o
+            if c["kind"] == "string":
+                try:
+                    v.set_auto_maskandscale(False)
+                    v.set_auto_chartostring(False)
+                    a = v[...]
+                    if v.dtype == "S1":
+                        a = netCDF4.chartostring(np.asarray(a))
+                    o["raw"] = obs_array(a)
+                except Exception as ex:
+                    o["raw"] = {"err": errclass(ex), "msg": str(ex)[:120]}
+                try:
+                    v.set_auto_maskandscale(True)
+                    a = v[...]
+                    if v.dtype == "S1":
+                        a = np.ma.asanyarray(a)
+                        m = np.ma.getmaskarray(a).all(axis=-1)
+                        a = np.ma.array(netCDF4.chartostring(np.asarray(np.ma.getdata(a))), mask=m)
+                    o["ref"] = obs_array(a)
+                except Exception as ex:
+                    o["ref"] = {"err": errclass(ex), "msg": str(ex)[:120]}
+                continue
+            for key, (ms, sc) in (("raw", (False, False)), ("ref", (True, True)), ("ref_mask_only", (True, False))):
+                try:
+                    v.set_auto_maskandscale(False)
+                    if ms:
+                        v.set_auto_mask(True)
+                    if sc:
+                        v.set_auto_scale(True)
+                    o[key] = obs_array(v[...])
+                except Exception as ex:
+                    o[key] = {"err": errclass(ex), "msg": str(ex)[:120]}
+    nc.close()
+
+
+def cfdm_reads_multi(fn, cases, rows, configs):
+    for (backend, mask, unpack) in configs:
+        key = f"{backend}|{int(mask)}|{int(unpack)}"
+        try:
+            fs = cfdm.read(fn, netcdf_backend=backend, mask=mask, unpack=unpack)
+            byname = {f.nc_get_variable(): f for f in fs}
+            rerr = None
+        except Exception as ex:
+            byname = {}
+            rerr = {"err": errclass(ex), "msg": ("read: " + type(ex).__name__ + ": " + str(ex))[:200]}
+        for c in cases:
+            out = {}
+            rows[c["i"]]["cf"][key] = out
+            if rerr is not None:
+                out["read_failed"] = rerr
+                continue
+            f = byname.get(f"c{c['i']}")
+            if f is None:
+                out["read_failed"] = {"err": "Missing", "msg": "field not found"}
+                continue
+            try:
+                out["all"] = all_arrays(f)
+                if not mask:
+                    out["applied"] = all_arrays(f.apply_masking())
+                    g = f.copy()
+                    g.apply_masking(inplace=True)
+                    out["applied_inplace"] = all_arrays(g)
+                    out["after"] = all_arrays(f)
+                    # construct by construct, as a user would
+                    solo = {}
+                    for ck, x in sorted(f.constructs.filter_by_data(todict=True).items()):
+                        name = x.nc_get_variable(None) or ck
+                        y = x.apply_masking()
+                        if y.has_data():
+                            solo[name] = attempt(lambda: y.array)
+                        if hasattr(y, "has_bounds") and y.has_bounds():
+                            solo[name + "|bounds"] = attempt(lambda: y.bounds.array)
+                    out["applied_solo"] = solo
+            except Exception as ex:
+                out["failed"] = {"err": errclass(ex), "msg": (type(ex).__name__ + ": " + str(ex))[:200]}
+
+
 def main():
     p = json.load(sys.stdin)
     scratch = p["scratch"]
@@ -260,16 +536,30 @@ def main():
         cases = g["cases"]
         rows = {c["i"]: {"i": c["i"], "cf": {}} for c in cases}
         fn = os.path.join(scratch, f"c07_{os.getpid()}_{g['gid']}.nc")
+        multi = cases[0].get("kind") in WRITERS
         try:
-            write_group(fn, cases)
+            if multi:
+                nc = netCDF4.Dataset(fn, "w", format="NETCDF4")
+                nc.createDimension("bnd", 2)
+                if any(c["kind"] == "dsg" for c in cases):
+                    nc.setncattr("featureType", "timeSeries")
+                for c in cases:
+                    WRITERS[c["kind"]](nc, c)
+                nc.close()
+            else:
+                write_group(fn, cases)
         except Exception as ex:
             for c in cases:
                 rows[c["i"]]["harness_err"] = "write: " + type(ex).__name__ + ": " + str(ex)[:200]
                 print(json.dumps(rows[c["i"]]), flush=True)
             continue
         try:
-            reference(fn, cases, rows)
-            cfdm_reads(fn, cases, rows, configs)
+            if multi:
+                reference_multi(fn, cases, rows)
+                cfdm_reads_multi(fn, cases, rows, configs)
+            else:
+                reference(fn, cases, rows)
+                cfdm_reads(fn, cases, rows, configs)
         except Exception as ex:
             for c in cases:
                 rows[c["i"]].setdefault("harness_err", type(ex).__name__ + ": " + str(ex)[:200])
